@@ -195,11 +195,23 @@ def mapaccess_check(ctx, which):
     ctx.notes["documents_with_merge_key"] = st["nontrivial"]
     ctx.notes["documents_with_repeated_key"] = st["nontrivial_dup"]
     mism = run_tv(ctx, "TV_MapAccess", recs, timeout=3000)
+    # action-level binding: the step log of MA::next_key_seed (branch taken, queue / merge-stack / seen-set sizes after every
+    # iteration) replayed through MapAccessMachine, for every enumerated root mapping under every policy plus random mappings
+    trecs = ctx.path("ma_traces.ndjson")
+    st2 = run_vh(ctx, ["c03t", "--cases", allcases, "--out", trecs, "--every", 1, "--random", 1500 if q else 30000, "--seed", ctx.seed, "--focus", which])
+    ctx.notes["map_access_traces"] = dict(records=st2["records"], steps=st2["steps"], merge_steps=st2["merge_steps"],
+                                          skip_or_dup_steps=st2["skip_steps"], error_traces=st2["error_traces"])
+    ctx.evaluations += st2["records"]
+    tmism = run_tv(ctx, "TR_MapAccess", trecs, label="TR_MapAccess", timeout=3000, invariants=["Count"], spec="TrSpec")
+    classify_mismatches(ctx, tmism, trecs, {},
+                        "a step of the mapping access loop is not a step of MapAccessMachine (merge batches / duplicate decision / skip)")
     classify_mismatches(ctx, mism, recs, ma_matchers(),
                         "observed mapping delivery differs from MapAccess!Delivered (merge precedence / duplicate-key policy)")
     rule = ("cases: every root mapping up to MaxEv events over keys {a, b, <<} (quoted/plain variants, sequence keys for C04) "
             "and uniquely labelled values, enumerated by TLC, each rendered in flow style, block style and with merge "
-            "sources moved behind anchors, under all three policies; plus random documents; non-trivial = distinct "
+            "sources moved behind anchors, under all three policies; plus random documents; the step log of MA::next_key_seed "
+            "(hook) of every enumerated mapping and of random mappings validated action by action against MapAccessMachine "
+            "(TR_MapAccess); non-trivial = distinct "
             + ("documents containing a merge key" if which == "C03" else "documents with a repeated own key"))
     return finish(ctx, "model_checking", rule,
                   ASSUME_COMMON + ["order-preserving pair-list target observes exactly what MapAccess yields",
